@@ -24,8 +24,8 @@ def generate(rng: random.Random, tier: str):
     cases = []
     n = 10 if thorough else 3
     for kind in ['fourier_nufft', 'gridsample', 'sliceproj', 'wavelet', 'fft']:
-        for _ in range(n * (2 if kind in ('fourier_nufft', 'gridsample', 'sliceproj') else 1)):
-            cases.append({'kind': 'grad', 'src': 'kernel', 'cfg': zoo_kernels.gen_config(kind, rng), 'dtype_x': rng.choice(['complex', 'real']), 'dtype_c': rng.choice(['complex', 'real']),
+        for kcfg in zoo_kernels.gen_configs(kind, rng, n * (2 if kind in ('fourier_nufft', 'gridsample', 'sliceproj') else 1)):
+            cases.append({'kind': 'grad', 'src': 'kernel', 'cfg': kcfg, 'dtype_x': rng.choice(['complex', 'real']), 'dtype_c': rng.choice(['complex', 'real']),
                           'seed': rng.randrange(1 << 30)})
     for kind in ['zeropad', 'fd', 'sens', 'einsum', 'cartsamp']:
         for _ in range(n):
